@@ -1064,7 +1064,7 @@ func (g *Gen) callAnchorsInvoke(fr *Frame, st *State, c *ssa.CallCommon, args []
 				}
 				extra[fmt.Sprintf("arg%d", i)] = cv
 			}
-			if mc := g.P.contracts[ifaceKey(c)]; mc != nil && len(mc.ParamNames) == sig.Params().Len()+1 {
+			if mc := g.contractOf(ifaceKey(c)); mc != nil && len(mc.ParamNames) == sig.Params().Len()+1 {
 				for i := 0; i < sig.Params().Len() && i < len(args); i++ {
 					if n := mc.ParamNames[i+1]; n != "" && n != "_" && args[i].T != "" {
 						extra[n] = CV{T: args[i].T, Ty: sig.Params().At(i).Type()}
@@ -1091,7 +1091,7 @@ func (g *Gen) callAnchorsInvoke(fr *Frame, st *State, c *ssa.CallCommon, args []
 			}
 		}
 		// the names the interface method's own contract gives its parameters (receiver first)
-		if mc := g.P.contracts[ifaceKey(c)]; mc != nil && len(mc.ParamNames) == sig.Params().Len()+1 {
+		if mc := g.contractOf(ifaceKey(c)); mc != nil && len(mc.ParamNames) == sig.Params().Len()+1 {
 			for i := 0; i < sig.Params().Len() && i < len(args); i++ {
 				if n := mc.ParamNames[i+1]; n != "" && n != "_" && args[i].T != "" {
 					env.vars[n] = CV{T: args[i].T, Ty: sig.Params().At(i).Type()}
